@@ -489,7 +489,7 @@ func (w *W) V2Transaction(t types.V2Transaction) {
 
 // V2TransactionSemantics is the preimage of a v2 transaction ID: every field is
 // always present (no bitmap), inputs and revised/resolved contracts are named by
-// element ID only, all signatures are zeroed, a storage proof's chain-index
+// element ID only (siafund inputs: ID followed by the claim address), all signatures are zeroed, a storage proof's chain-index
 // Merkle proof is dropped, the foundation address is an optional (bool + value).
 func (w *W) V2TransactionSemantics(t types.V2Transaction) {
 	var zeroSig types.Signature
@@ -508,6 +508,10 @@ func (w *W) V2TransactionSemantics(t types.V2Transaction) {
 	w.U64(uint64(len(t.SiafundInputs)))
 	for _, in := range t.SiafundInputs {
 		w.Raw(in.Parent.ID[:])
+		// the claim address is effect-bearing (it receives the claim payout) and is
+		// part of the ID / sighash preimage since /repo commit "fix: include the
+		// siafund claim address in the v2 semantic encoding" (found by C12)
+		w.Raw(in.ClaimAddress[:])
 	}
 	w.U64(uint64(len(t.SiafundOutputs)))
 	for _, o := range t.SiafundOutputs {
